@@ -270,7 +270,12 @@ Definition bounds_ok (w : world) (ops : list op) (items : list item_obs) (io : i
   match inst_of (io_item io) with
   | None => true
   | Some i =>
-      let allowed := 9 :: flat_map (iface_anc (fuel_of w) w) (named_for i ops)
+      (* a named argument is an interface (with what it extends) or, from the number of interfaces
+         upwards, the specification of a class (with what that class implements now) *)
+      let named a := if Nat.ltb a (nifaces w) then iface_anc (fuel_of w) w a
+                     else class_flattened items (a - nifaces w) in
+      let allowed := 9 :: match w_root w with Some r => [r] | None => [] end
+                       ++ flat_map named (named_for i ops)
                        ++ class_flattened items (fst (nth i (w_insts w) (0, []))) in
       negb (ob_ok o) || (subset (io_fbefore io) (ob_fafter o) && subset (ob_fafter o) allowed)
   end.
